@@ -58,7 +58,8 @@ CHECK = {
                      "P3R.Props.C04Sched", "P3R.Witness.C04Sched",
                      "P3R.Props.C04SchedBus", "P3R.Witness.C04SchedBus",
                      "P3R.Props.C04SchedWF", "P3R.Witness.C04SchedWF",
-                     "P3R.Props.C04SchedCols", "P3R.Witness.C04SchedCols"],
+                     "P3R.Props.C04SchedCols", "P3R.Witness.C04SchedCols",
+                     "P3R.Props.EndToEnd", "P3R.Props.EndToEndReach", "P3R.Witness.EndToEnd"],
     "theorems": ["P3R.C04.readers_agree", "P3R.C04.row_sat_add", "P3R.C04.row_sat_mul", "P3R.C04.row_sat_bool",
                  "P3R.C04.row_sat_muladd", "P3R.C04.row_sat_horner", "P3R.C04.accepted_alu_sat_partial", "P3R.C04.const_not_bound",
                  # composition: balanced bus + single creator (C09) + row constraints on cells => a satisfying assignment exists
@@ -113,10 +114,26 @@ CHECK = {
                  # non-primitive rows (control part of the Poseidon circuit tables): what an accepted window implies about chaining,
                  # Merkle placement and the index accumulator, and what it leaves free (the known findings F-C08-5*, F-C11-P1)
                  "P3R.C11P.spongeChain_iff", "P3R.C11P.merklePlace_iff", "P3R.C11P.arity4Place_iff", "P3R.C11P.generic_window_iff",
-                 "P3R.C11P.accChain2_iff", "P3R.C11P.accChain4_iff", "P3R.C11P.generic_chain_start_free", "P3R.C11P.compact_start_iff"],
+                 "P3R.C11P.accChain2_iff", "P3R.C11P.accChain4_iff", "P3R.C11P.generic_chain_start_free", "P3R.C11P.compact_start_iff",
+                 # END TO END (Props/EndToEnd): the stage theorems composed. Soundness C04 o C03 o C02: an accepted trace of compile b attests an
+                 # assignment to the program's EXPRESSIONS (through expr_to_widx and the dedup rewrite, fused product slots repaired) under which
+                 # the SOURCE program holds (every node relation, connect, assert_zero, assert_bool; with non-zero divisors: denotations);
+                 # base field, every D, and from the scheduled table; completeness C02 o C09 o C10 is the converse; bridging lemmas
+                 "P3R.E2E.SourceSat.assert_zero", "P3R.E2E.SourceSat.assert_bool", "P3R.E2E.SourceSat.denote",
+                 "P3R.E2E.compile_e2w", "P3R.E2E.compile_eslot", "P3R.E2E.source_of_sat", "P3R.E2E.accepted_sat_cells",
+                 "P3R.E2E.dedup_wf", "P3R.E2E.fuse_wf", "P3R.E2E.compile_ops_wf", "P3R.E2E.compile_alu_shape", "P3R.E2E.run_pub_in_range",
+                 "P3R.E2E.e2e_soundness", "P3R.E2E.e2e_soundness_reachable", "P3R.E2E.e2e_soundness_gen", "P3R.E2E.e2e_soundness_scheduled",
+                 "P3R.E2E.e2e_completeness", "P3R.E2E.e2e_completeness_gen", "P3R.E2E.e2e_roundtrip",
+                 "P3R.Witness.EndToEnd.e_reachable", "P3R.Witness.EndToEnd.e_guards", "P3R.Witness.EndToEnd.e_facts",
+                 "P3R.Witness.EndToEnd.completeness_applies", "P3R.Witness.EndToEnd.soundness_applies",
+                 "P3R.Witness.EndToEnd.source_consequence", "P3R.Witness.EndToEnd.e2e_nonvacuous",
+                 "P3R.Witness.EndToEnd.roundtrip_applies", "P3R.Witness.EndToEnd.run_evaluated",
+                 "P3R.Witness.EndToEnd.tampered_not_accepted", "P3R.Witness.EndToEnd.gen_applies",
+                 # Props/EndToEndReach: node 0 of every reachable program is the zero constant (assert_zero x = connect x 0 => v x = 0)
+                 "P3R.E2ER.Reachable.node0", "P3R.E2E.SourceSat.assert_zero_reachable", "P3R.Witness.EndToEnd.guards_from_reachability"],
     "run": c04_run,
     "trusted_base": ["ideal STARK/LogUp: an accepted proof implies row constraints hold on some committed trace and the WitnessChecks bus is balanced as a signed multiset (DESIGN §2)"],
-    "assumptions": ["the Lean composition theorem holds for every extension degree D >= 1 (accepted_sat_gen: cells in the base field, D per operand, bus tuples (slot, v_0..v_{D-1}), coefficient-wise row constraints, relations in the extension ring L generated by a root alpha of the ALU's multiplication kind — KindRoot; accepted_sat is its D = 1 instance, accepted_sat_of_gen); accepted_sat(_gen) speaks about single-step Horner rows of the unscheduled abstract trace; the SCHEDULED table is covered by scheduled_accepted_sat_bus (Props/C04Sched, C04SchedBus): for sched = computeSchedule preps lanes kmax, the concrete preprocessed matrix prepRow = scheduledPrepRows (zero rows up to height H), ANY main-trace row function, (a) all of aluConstraints D lanes kmax kind vanishing on every window (r, r+1 mod H) and (b) the packed bus schedBus (other tables' cells + per scheduled entry what the table declares: packed rows send ONE b tuple with the summed multiplicity and nothing for the silent intermediate outputs) balanced as a signed multiset of D-tuples imply an assignment in the extension ring satisfying every op (single ops in every lane, chain starts after a separator via the F22 constraint, packed rows of every arity via C11.packed_window_sound_gen at ring level, cover by C11.computeSchedule_cover, bus by packed_tuple_net_gen + bus_single_valued_gen); the lane-0 discipline SchedWF of the schedule (Horner entries only on lane 0 below row 0, predecessor = previous chain entry or separator, packed arity in 2..K_max) is DERIVED from the model of compute_schedule for every op list, lanes >= 1 and K_max (computeSchedule_wf, Props/C04SchedWF: invariants of splitChains / fill_row / the chain loop; scheduled_accepted_sat_bus' has no SchedWF hypothesis); the integer-level reading hpk of the scheduler's two tests is DERIVED (hpk_of_tested, scheduled_accepted_sat_bus'', Props/C04SchedCols) from the per-op column encoding PrepBus (index columns = natK slot, multiplicity columns = images of eventMult; = what common.rs writes, read not modelled) when b slots have distinct images and non-zero out multiplicities non-zero images (natK_inj_below / intCast_zero_below: slot indices and read counts below the characteristic); aluInteractions on a row of the scheduled matrix is read entry by entry (aluInteractions_prepRow) and its tuples on single-op lanes / lane 0 of a packed row are the K-images of the integer interactions (lane_op_image, lane_packed_image: ONE b tuple with the image of the summed multiplicity, last step's out); its explicit hypotheses that are NOT derived: the images of the packed EXTRA tuples (later steps' (a, c) lookups) and the transfer of a K-valued balance to the integer tuple balance are not proved (hbal stays on integer multiplicities), the selector columns of op j encode its kind (PrepSel, = the 12->13 column conversion of common.rs), the integer-level reading hpk of the scheduler's two tests (equal b slot, intermediate out multiplicity 0; the K-valued columns b_idx / mult_out agree with it when slot indices and read counts stay below the characteristic), multiplicities are integers (the field-valued multiplicity columns of aluInteractions are their images), at most one creator per slot over the unpacked cells (C09.one_creator up to the schedule's permutation), MUL_ADD / HORNER ops carry a c operand; the row selector is one non-zero value `sel` (one-hot selectors of the preprocessed trace; window_lane_blocks ties the constraint vectors to aluConstraints); accepted_sat(_gen) assumes no ALU operand is off the bus (role `skip`; 0 of 36k generated rows in the C09 run) and that a Const row's cells denote the circuit's constant (false today: finding F4); the permutation rounds of the Poseidon tables are uninterpreted (control part modelled in Model/PoseidonCtl, tied by C11's run); recompose rows carry no constraint (F5b)"],
+    "assumptions": ["the Lean composition theorem holds for every extension degree D >= 1 (accepted_sat_gen: cells in the base field, D per operand, bus tuples (slot, v_0..v_{D-1}), coefficient-wise row constraints, relations in the extension ring L generated by a root alpha of the ALU's multiplication kind — KindRoot; accepted_sat is its D = 1 instance, accepted_sat_of_gen); accepted_sat(_gen) speaks about single-step Horner rows of the unscheduled abstract trace; the SCHEDULED table is covered by scheduled_accepted_sat_bus (Props/C04Sched, C04SchedBus): for sched = computeSchedule preps lanes kmax, the concrete preprocessed matrix prepRow = scheduledPrepRows (zero rows up to height H), ANY main-trace row function, (a) all of aluConstraints D lanes kmax kind vanishing on every window (r, r+1 mod H) and (b) the packed bus schedBus (other tables' cells + per scheduled entry what the table declares: packed rows send ONE b tuple with the summed multiplicity and nothing for the silent intermediate outputs) balanced as a signed multiset of D-tuples imply an assignment in the extension ring satisfying every op (single ops in every lane, chain starts after a separator via the F22 constraint, packed rows of every arity via C11.packed_window_sound_gen at ring level, cover by C11.computeSchedule_cover, bus by packed_tuple_net_gen + bus_single_valued_gen); the lane-0 discipline SchedWF of the schedule (Horner entries only on lane 0 below row 0, predecessor = previous chain entry or separator, packed arity in 2..K_max) is DERIVED from the model of compute_schedule for every op list, lanes >= 1 and K_max (computeSchedule_wf, Props/C04SchedWF: invariants of splitChains / fill_row / the chain loop; scheduled_accepted_sat_bus' has no SchedWF hypothesis); the integer-level reading hpk of the scheduler's two tests is DERIVED (hpk_of_tested, scheduled_accepted_sat_bus'', Props/C04SchedCols) from the per-op column encoding PrepBus (index columns = natK slot, multiplicity columns = images of eventMult; = what common.rs writes, read not modelled) when b slots have distinct images and non-zero out multiplicities non-zero images (natK_inj_below / intCast_zero_below: slot indices and read counts below the characteristic); aluInteractions on a row of the scheduled matrix is read entry by entry (aluInteractions_prepRow) and its tuples on single-op lanes / lane 0 of a packed row are the K-images of the integer interactions (lane_op_image, lane_packed_image: ONE b tuple with the image of the summed multiplicity, last step's out); its explicit hypotheses that are NOT derived: the images of the packed EXTRA tuples (later steps' (a, c) lookups) and the transfer of a K-valued balance to the integer tuple balance are not proved (hbal stays on integer multiplicities), the selector columns of op j encode its kind (PrepSel, = the 12->13 column conversion of common.rs), the integer-level reading hpk of the scheduler's two tests (equal b slot, intermediate out multiplicity 0; the K-valued columns b_idx / mult_out agree with it when slot indices and read counts stay below the characteristic), multiplicities are integers (the field-valued multiplicity columns of aluInteractions are their images), at most one creator per slot over the unpacked cells (C09.one_creator up to the schedule's permutation), MUL_ADD / HORNER ops carry a c operand; the row selector is one non-zero value `sel` (one-hot selectors of the preprocessed trace; window_lane_blocks ties the constraint vectors to aluConstraints); accepted_sat(_gen) assumes no ALU operand is off the bus (role `skip`; 0 of 36k generated rows in the C09 run) and that a Const row's cells denote the circuit's constant (false today: finding F4); the permutation rounds of the Poseidon tables are uninterpreted (control part modelled in Model/PoseidonCtl, tied by C11's run); recompose rows carry no constraint (F5b); END TO END (Props/EndToEnd, e2e_soundness / _gen / _scheduled): composed with C03 (compile_chain_sound_total) and C02 (lower_passes_check_ok) the satisfying assignment of the op list becomes an assignment to the source program's expressions satisfying every node relation / connect / assert — hypotheses: BState.Ok (every Reachable program), compile b = ok c, genPrep c = some p, the acceptance conditions, and hnoskip (no operand of the role scan off the bus: decidable on p, NOT derived from reachability); hornerChained and the well-formedness of the compiled ops are derived from compile (compile_ops_eq, compile_ops_wf)"],
 }
 
 MANIFEST_ENTRY = {
